@@ -174,7 +174,8 @@ def value_for(ctx, target, pname, kind, sofar):
     if kind == 'TokenIterator':
         from penman._lexer import lex
         text = r.choice([penman.format(ctx.tree), '(a / b :c "d" :e 1.5)', 'a b ( ) / :r', '', '(a', 'instance(a, b) ^ r(a, c)',
-                         '# ::id 1\n(a / b)', '(a / "unterminated'])
+                         '# ::id 1\n(a / b)', '(a / "unterminated', 'r(a , b)^s(a,c) ^ t(a ,d)', 'r(a b)', ', b) ^ r(a)',
+                         '# ::snt x ::id 3\n# plain\n(a / b~1 :r~2 (c) :s )', '(a :r :s b / )', ') (', '(a / b (c'])
         from penman._lexer import TokenIterator
         try:
             toks = list(lex(text).iterator) if False else None
@@ -254,6 +255,10 @@ def value_for(ctx, target, pname, kind, sofar):
             if r.random() < 0.2 and out_:
                 out_.append(out_[0])
             return r.choice([None, out_, out_])
+    if pname == 'symbol':
+        from penman._lexer import Token
+        txt = r.choice(['a', 'a,b', 'a,', 'x-1,"s"', ',', 'b1', 'a,b,c'])
+        return Token('SYMBOL', txt, 1, 3, 'r(' + txt + ')')
     if pname == 'fmt':
         return r.choice(['{prefix}{j}', '{prefix}{i}', 'a{i}', '{prefix}_{i}{j}', '{i}{prefix}', 'v{j}', 'x', '{prefix}'])
     if pname in ('target', 'constant_string'):
